@@ -90,6 +90,8 @@ def _run(case, mirror, fee_obj=None):
     if case.get('swap_fee') and fee_obj is not None:
         # the fee schedule configured on the broker changes before the fills: fills follow the broker's current model
         b.fee_model = fee_obj
+    if case.get('retune') == 3 and isinstance(case['fee'], list) and fee_obj is not None:
+        _retune(fee_obj, case)
     built = []
     for a, qty, bid, ask, pid, ocomm in orders:
         od = q.Order(t0, a, qty, commission=ocomm) if ocomm else q.Order(t0, a, qty)
@@ -157,13 +159,19 @@ def _run(case, mirror, fee_obj=None):
     return out, rate
 
 
+def _retune(fee_obj, case):
+    for name in (('commission_pct', 'tax_pct') if case['retune'] != 2 else ('tax_pct', 'commission_pct')):
+        setattr(fee_obj, name, case['fee'][0] if name == 'commission_pct' else case['fee'][1])
+
+
 def run_case(case):
     fee_obj = kit.fee_model(case['fee'])          # one fee-model object serves both brokers
     if case.get('retune') and isinstance(case['fee'], list):
-        # a live fee model re-tuned through its public rate attributes (commission first, or tax first)
+        # a live fee model re-tuned through its public rate attributes (commission first, or tax first); with
+        # retune 3 the caller re-tunes its own object only after the brokers were built with it
         fee_obj = load().PercentFeeModel(commission_pct=0.0321, tax_pct=0.0123)
-        for name in (('commission_pct', 'tax_pct') if case['retune'] == 1 else ('tax_pct', 'commission_pct')):
-            setattr(fee_obj, name, case['fee'][0] if name == 'commission_pct' else case['fee'][1])
+        if case['retune'] != 3:
+            _retune(fee_obj, case)
     load().PercentFeeModel(commission_pct=0.0123, tax_pct=0.0456)     # an unrelated model built later must not matter
     a1, rate = _run(case, False, fee_obj)
     a2, _ = _run(case, True, fee_obj)
@@ -262,7 +270,7 @@ def cases(draw):
             m = max(1, abs(o['qty']) // 2)
             prior.append({0: 0, 1: -m if o['qty'] > 0 else m, 2: -(abs(o['qty']) + 3) if o['qty'] > 0 else abs(o['qty']) + 3,
                           3: 5 if o['qty'] > 0 else -5}[k])
-    return {'retune': draw(st.sampled_from([0, 0, 1, 2])), 'prior': prior, 'via_exec': draw(st.sampled_from([False, False, True])), 'swap_fee': swap, 't_submit': [t0.year, t0.month, t0.day, t0.hour, t0.minute, t0.second],
+    return {'retune': draw(st.sampled_from([0, 0, 1, 2, 3])), 'prior': prior, 'via_exec': draw(st.sampled_from([False, False, True])), 'swap_fee': swap, 't_submit': [t0.year, t0.month, t0.day, t0.hour, t0.minute, t0.second],
             't_update': [t1.year, t1.month, t1.day, t1.hour, t1.minute, t1.second],
             'orders': orders, 'fee': fee}
 
